@@ -16,11 +16,11 @@ CONSTANTS
   MaxTicks = 3
   MaxCands = 2
   MaxCandsA = 1
-  MaxAborts = 1
-  MaxJumps = 0
+  MaxAborts = 0
+  MaxJumps = 1
   PreNames = {"hub"}
   Export = TRUE
   None = None
-INVARIANTS Inv_PatchStep Inv_Linear Inv_Jump Inv_Chain Inv_WellFormed Inv_TxBook Inv_ScriptFold Inv_AbortInvisible Inv_SliceDefs Inv_SliceWeak Inv_Unproduced Inv_Export
+INVARIANTS Inv_PatchStep Inv_Chain Inv_WellFormed Inv_TxBook Inv_ScriptFold Inv_SliceDefs Inv_Export
 PROPERTIES Prop_AbortNoTrace
 CHECK_DEADLOCK FALSE
